@@ -1,4 +1,5 @@
 import OH.Props.C04
+import OH.Props.C04P
 import OH.Props.C02B
 #print axioms OH.Props.C04.C04_iter_total_partial
 #print axioms OH.Props.C04.C04_state_total_partial
@@ -7,6 +8,10 @@ import OH.Props.C02B
 #print axioms OH.Props.C04.C04_state_far_future
 #print axioms OH.Props.C04.C04_offset_total
 #print axioms OH.Props.C04.C04_span_total
+#print axioms OH.Props.C04P.C04_pairs_conform_to_grammar
+#print axioms OH.Props.C04P.C04_parse_never_panics
+#print axioms OH.Props.C04P.C04_parseChars_never_panics
+#print axioms OH.Props.C04P.C04_parse_ok_or_err
 #print axioms OH.Props.C02B.schedOf_of_scheduleAt
 #print axioms OH.Props.C02B.kinds_of_dayKind
 #print axioms OH.Props.C02B.outside_closed
